@@ -20,7 +20,7 @@ RULE = ('models generated as trees by the harness (recursive blocks; single and 
         'slot and a replacement present')
 REQUIRED = {'models': 200, 'processor_calls_checked': 5000, 'abstract_slot_calls': 500, 'replacements_checked': 200,
             'falsy_replacements': 30, 'two_file_loads': 40, 'user_class_loads': 40, 'depth3_models': 50,
-            'two_language_loads': 30}
+            'two_language_loads': 30, 'one_callable_for_all_rules_loads': 50}
 
 GRAMMAR = '''
 Model: imports*=Import 'model' name=ID items*=Item;
@@ -234,6 +234,16 @@ def one(ctx, i, rep=None):
     mm.register_scope_providers({'*.*': sp.PlainNameImportURI()})
     procs = {'Model': mk('Model'), 'Block': mk('Block'), 'Leaf': mk('Leaf'), 'Ref': mk('Ref'),
              'Item': mk('Item'), 'Val': mk('Val', True), 'Tag': mk('Tag', True)}
+    shared_callable = (i % 7 == 3) and not multi_lang
+    if shared_callable:
+        # ONE callable registered for every common rule and for the abstract rule (a generic tracer): an object stored in
+        # an Item-typed attribute must still see it twice (own rule, then abstract rule)
+        def tracer(x):
+            clock[0] += 1
+            log.append(('*', ('obj', id(x), type(x).__name__, getattr(x, 'name', None)), clock[0], linked_probe(x)))
+        for k in ('Model', 'Block', 'Leaf', 'Ref', 'Item'):
+            procs[k] = tracer
+        ctx.count('one_callable_for_all_rules_loads')
     if multi_lang:
         from textx import register_language, clear_language_registrations, LanguageDesc
         mm2 = metamodel_from_str(GRAMMAR)
@@ -279,8 +289,19 @@ def one(ctx, i, rep=None):
     depth_ok = max(len(n['name']) for n in nodes_all) and any(True for n in nodes_all)
     # ---- offline checker ---------------------------------------------------------------
     calls = {}
+    if shared_callable:
+        # the tracer cannot know for which rule it was called: the first call for an object counts as the call for its
+        # own rule, a second one as the call for the abstract rule, further ones again for its own rule (-> count error)
+        per_obj = {}
+        for rule, what, t, problem in log:
+            if what[0] == 'obj':
+                per_obj.setdefault(what[3], []).append((t, problem, what[2]))
+        for name, lst in per_obj.items():
+            lst.sort()
+            for k, c in enumerate(lst):
+                calls.setdefault((c[2] if k != 1 else 'Item', name), []).append(c)
     for rule, what, t, problem in log:
-        if what[0] == 'obj':
+        if what[0] == 'obj' and not shared_callable:
             calls.setdefault((rule, what[3]), []).append((t, problem, what[2]))
     has_abs = has_rep = False
     maxd = [0]
@@ -352,6 +373,8 @@ def one(ctx, i, rep=None):
     by_name = {getattr(x, 'name', None): x for x in models}
 
     def expected_value(n, slot_type):
+        if shared_callable:
+            return ('obj', n['name'])
         o = own_replacement(n['kind'], n['name'], salt)
         a = abs_replacement(n['name'], salt) if slot_type == 'Item' else None
         if o is not None:
